@@ -16,6 +16,8 @@ var c19Quads = [][4]string{
 	{"<!--", "-->", "[#", "#]"},
 	{"~~~~", "^^^^", "+++", "==="},
 	{"(:", ":)", "(|", "|)"},
+	{"<<", ">>", "<%", "!=>"},
+	{"((", "))", "@@", "=%=>"},
 }
 
 // templates written with the default delimiters; none contains a character of the custom sets otherwise
@@ -27,6 +29,7 @@ var c19Templates = []string{
 	"{% assign q = x | plus: 1 %}{{ q }}{% capture c %}{{ q }}{% endcapture %}{{ c }}",
 	"{{ x }}\n\n{% if %}",
 	"x {{-x-}} y {%-assign z = 1-%} w",
+	"{% if x != 5 %}ne{% endif %}{% assign s = 'a!=b=%=c' %}{{ s }}{% if x == 3 and x != 4 %}!{% endif %}",
 }
 
 func c19Respell(t string, q [4]string) string {
